@@ -30,12 +30,11 @@ import (
 )
 
 const (
-	c07Tick      = time.Millisecond
-	c07KnownFile = "/verif/.work/C07-known.txt"
-	c07KnownID   = "panic-unheard"
-	c07KnownID2  = "write-close-race"
-	c07KnownID3  = "panic-lost-in-select"
-	c07Far       = 1000000 // ticks: a context deadline that is never reached
+	c07Tick     = time.Millisecond
+	c07KnownID  = "panic-unheard"
+	c07KnownID2 = "write-close-race"
+	c07KnownID3 = "panic-lost-in-select"
+	c07Far      = 1000000 // ticks: a context deadline that is never reached
 )
 
 // ---------------------------------------------------------------- case (data)
@@ -251,30 +250,7 @@ func (c c07Case) userCancels() int {
 
 func (c c07Case) hasUserCancel() bool { return c.userCancels() > 0 }
 
-// raceKnown: the reducer writes a result and something may call cancel.
-func (c c07Case) raceKnown() bool {
-	if (c.Entry != "mr" && c.Entry != "chan") || c.Red.Early+c.Red.Late == 0 {
-		return false
-	}
-	return c.hasUserCancel() || c.ctxNear()
-}
-
 func (c c07Case) ctxNear() bool { return c.Ctx != "" && c.CtxAt < c07Far }
-
-// wedgeProne: a generator panic that nobody receives any more (known finding
-// panic-unheard) keeps the source open for ever, so the cancel call sitting in
-// drain(source) never completes; a second cancel call (user code, or the caller
-// on ctx.Done) then waits for ever on the mutex of the sync.Once around cancel.
-// synctest cannot report that deadlock (a mutex is not a durable block) and the
-// bubble would wedge in real time. Such cases are not generated (and are
-// counted as excluded when replayed).
-func (c c07Case) wedgeProne() bool {
-	if c.GenPanic < 0 || c.Entry == "chan" {
-		return false
-	}
-	uc := c.userCancels()
-	return uc >= 2 || (uc >= 1 && c.ctxNear())
-}
 
 func (r *c07Run) enter(i int) {
 	r.mu.Lock()
@@ -587,17 +563,6 @@ func c07NewRun(c c07Case) *c07Run {
 
 func c07Interp(t *testing.T, c c07Case) (v kit.Verdict) {
 	r := c07NewRun(c)
-	if c.wedgeProne() {
-		return kit.Verdict{Excluded: true, Classes: []string{"excluded:wedge-prone"}}
-	}
-	if c.Zero && c.raceKnown() && os.Getenv("VERIF_C07_RACE_ALL") == "" && kit.KnownOpen("C07", c07KnownID2) {
-		// Under -race the detector itself reports the close(output)/send pair of the
-		// open finding write-close-race and fails the whole process, which cannot
-		// be attributed to a case. While that finding is open its trigger (a reducer
-		// write together with a cancel or a context that gets done) is left out of
-		// the contention unit; it stays in the virtual-time unit.
-		return kit.Verdict{Excluded: true, Classes: []string{"excluded:known-write-close-race"}}
-	}
 	res := kit.Bubble(t, r.run)
 	return r.judge(res)
 }
@@ -1152,9 +1117,6 @@ func c07Gen(zero bool) func(rt *rapid.T) c07Case {
 			c.Ctx = rapid.SampledFrom([]string{"deadline", "cancelat"}).Draw(rt, "ctx")
 			c.CtxAt = c07Far
 		}
-		if c.wedgeProne() {
-			c.GenPanic = -1
-		}
 		return c
 	}
 }
@@ -1194,7 +1156,7 @@ func TestVerif_C07_zz_loop(t *testing.T) {
 	fmt.Fprintf(os.Stderr, "C07 loop: %d of %d attempts failed\n", fails, n)
 }
 
-// ==== C07-TESTS: everything above this line is copied verbatim into the race unit (lib/errorx) by harness/C07/sync-race-unit.sh
+// ==== C07-TESTS: everything above this line is copied verbatim into the race unit (lib/mr@race) by harness/C07/sync-race-unit.sh
 
 // c07Enumerate: small-scope exhaustive enumeration of MapReduce calls.
 // quick:    workers 1..2, 1..2 items with delay 0..1 / plain|cancel|panic / one value each,
